@@ -164,7 +164,13 @@ static void gen_c12(Plan& p, Rng& r) {
             o.n["off"] = offs[r.below(10)]; o.n["whence"] = r.below(12) == 0 ? 3 + (int64_t)r.below(3) : (int64_t)r.below(3);
             p.ops.push_back(o);
         } else if (k < 82) { Op o = mkop("fd_tell", r); o.n["fd_live"] = r.below(8); p.ops.push_back(o); }
-        else if (k < 92) { Op o = mkop("fd_filestat_get", r); if (r.below(5) == 0) o.n["fd_dir"] = r.below(4); else o.n["fd_live"] = r.below(8); p.ops.push_back(o); }
+        else if (k < 90) { Op o = mkop("fd_filestat_get", r); if (r.below(5) == 0) o.n["fd_dir"] = r.below(4); else o.n["fd_live"] = r.below(8); p.ops.push_back(o); }
+        else if (k < 94) {
+            // the name of an open file changes or disappears: descriptor-based calls keep referring to the file itself
+            Op o = mkop(r.below(2) ? "path_rename" : "path_unlink_file", r); o.n["dirfd"] = 3; o.n["dirfd2"] = 3; o.path = pick(r, names); o.n["haspath"] = 1;
+            if (o.name == "path_rename") o.path2 = r.below(2) ? pick(r, names) : std::string("moved") + std::to_string(r.below(3));
+            p.ops.push_back(o);
+        }
         else { Op o = mkop("fd_close", r); o.n["fd_live"] = r.below(8); p.ops.push_back(o); }
     }
 }
